@@ -4,8 +4,11 @@ package interp
 
 import (
 	"fmt"
+	"os"
 	"strings"
 )
+
+var raceDebug = os.Getenv("GOSYM_RACE_DEBUG") != ""
 
 type vclock map[int]int
 
@@ -63,9 +66,14 @@ func (w *Worker) access(obj interface{}, write bool) {
 		rs.cells[obj] = rec
 	}
 	where := strings.Join(w.i.stackStrings(3), " <- ")
-	if strings.Contains(firstFrame(where), "verif") || strings.Contains(firstFrame(where), "Verif") || strings.Contains(firstFrame(where), "zz_verif") {
+	if strings.Contains(firstFrame(where), "AsRealCode") {
+		// harness function that stands in for engine code (e.g. the metrics observer loop)
+	} else if strings.Contains(firstFrame(where), "verif") || strings.Contains(firstFrame(where), "Verif") || strings.Contains(firstFrame(where), "zz_verif") {
 		// accesses made by harness code itself (bookkeeping variables) are not under test
 		return
+	}
+	if raceDebug {
+		fmt.Fprintf(os.Stderr, "RACE-DBG t%d w=%v vc=%v obj=%p %s\n", th.id, write, th.vc, obj, firstFrame(where))
 	}
 	report := func(kind string, otherTid int, otherWhere string) {
 		msg := fmt.Sprintf("data race (%s) on %s: [%s] vs [%s]", kind, describeObj(obj), firstFrame(where), firstFrame(otherWhere))
@@ -114,4 +122,27 @@ func describeObj(o interface{}) string {
 		return "variable"
 	}
 	return fmt.Sprintf("%T", o)
+}
+
+
+// syncPoint models an operation on a synchronising object (sync.Map, sync/atomic cell,
+// atomic.Value) as acquire followed by release: everything that happened before an earlier
+// operation on the same object happens before what follows this one. This over-approximates
+// the memory model's edges (a Load is treated as a release too), which can hide a race but
+// never invents one.
+func (m *models) syncPoint(obj interface{}) {
+	if m.cur == nil {
+		return
+	}
+	if m.syncVC == nil {
+		m.syncVC = map[interface{}]vclock{}
+	}
+	vc := m.syncVC[obj]
+	if vc == nil {
+		vc = vclock{}
+		m.syncVC[obj] = vc
+	}
+	m.cur.vc.join(vc)
+	vc.join(m.cur.vc)
+	m.cur.vc.tick(m.cur.id)
 }
